@@ -7,6 +7,7 @@ import (
 	"fmt"
 	"math"
 	"reflect"
+	"strings"
 	"testing"
 
 	"github.com/theory/sqljson/path/exec"
@@ -180,7 +181,8 @@ func checkTotalFacts(c ExecCase) (v *Violation, f totalFacts) {
 
 // typeTableCases: every operator and method applied to every JSON type.
 func typeTableCases() []ExecCase {
-	values := []string{`null`, `true`, `1`, `-1.5`, `1e308`, `9223372036854775807`, `1e400`, `123456789012345678901234567890`, `"abc"`, `"12"`, `"2015-08-01"`, `"12:34:56+01"`, `"2015-08-01T12:34:56"`, `[]`, `[1,"a",null]`, `[[1]]`, `{}`, `{"a":1,"b":[2]}`}
+	long := "1" + strings.Repeat("0", 400)
+	values := []string{`0`, `0.0`, `-0.0`, `"0"`, `1e-400`, long, "-" + long, `[0, ` + long + `]`, `null`, `true`, `1`, `-1.5`, `1e308`, `9223372036854775807`, `1e400`, `123456789012345678901234567890`, `"abc"`, `"12"`, `"2015-08-01"`, `"12:34:56+01"`, `"2015-08-01T12:34:56"`, `[]`, `[1,"a",null]`, `[[1]]`, `{}`, `{"a":1,"b":[2]}`}
 	var tails []string
 	for _, m := range methods {
 		tails = append(tails, "$."+m+"()")
@@ -188,7 +190,7 @@ func typeTableCases() []ExecCase {
 	for _, m := range defDTs {
 		tails = append(tails, "$."+m+"()")
 	}
-	tails = append(tails, "$.decimal(5,2)", "$.decimal(1000,1000)", "$.decimal(10,400)", "$.decimal(1,-1000)", "$.time(3)", "$.timestamp_tz(0)", "-$", "+$", "$[0]", "$[last]", "$[$]", "$[0 to $]", "$.*", "$[*]", "$.**", "$.a", "$ ? (@ > 1)", "$.datetime().string()", "$.datetime().type()")
+	tails = append(tails, "$.decimal(5,2)", "$.decimal(1000,1000)", "$.decimal(10,400)", "$.decimal(1,-1000)", "$.time(3)", "$.timestamp_tz(0)", "-$", "+$", "$[0]", "$[last]", "$[$]", "$[0 to $]", "$[$[1]]", "$[0 to $[1]]", "$[0] == $[1]", "$[1] > 0", "$[*] ? (@ > 1)", "$.decimal(1000,400)", "$.decimal(400,309)", "$.decimal(1,-400)", "$.*", "$[*]", "$.**", "$.a", "$ ? (@ > 1)", "$.datetime().string()", "$.datetime().type()")
 	for _, op := range arithOps {
 		tails = append(tails, "$ "+op+" 2", "2 "+op+" $", "$ "+op+" $", "$ "+op+" 0", "$ "+op+" 1e308", "$ "+op+" 9223372036854775807")
 	}
